@@ -107,7 +107,8 @@ func (c Config) ChanOrDefault() time.Duration {
 // Realm and users are fixed.
 const Realm = "pion.ly"
 
-var Users = map[string]string{"u1": "p1", "u2": "p2", AnonUser: "pa"}
+// "U1" is another account than "u1": user names are compared exactly
+var Users = map[string]string{"u1": "p1", "u2": "p2", "U1": "p1-upper", AnonUser: "pa"}
 
 // Peer is a scripted peer endpoint.
 type Peer struct {
